@@ -2219,6 +2219,90 @@ func c09Prefix(w *World, r *Result) {
 				default:
 					r.Bad(rule, "prefix:first-character", pos, "cannot determine the first character class of the computed prefix")
 				}
+				// what identifies a file: the prefix keeps the names of different files apart (and is
+				// the key under which a file counts as included already). A prefix computed from the
+				// file's content alone gives two different files with the same text one name space
+				// and one inclusion
+				fromContent, fromPath := false, false
+				seenV := map[ssa.Value]bool{}
+				var walk func(v ssa.Value, d int)
+				walk = func(v ssa.Value, d int) {
+					if v == nil || d > 14 || seenV[v] {
+						return
+					}
+					seenV[v] = true
+					switch x := v.(type) {
+					case *ssa.Parameter:
+						if isString(x.Type()) {
+							fromPath = true // the only text a parse function receives besides the content is where the file is
+						}
+					case *ssa.Call:
+						if callee := x.Call.StaticCallee(); callee != nil {
+							switch callee.String() {
+							case "os.ReadFile", "io/ioutil.ReadFile":
+								fromContent = true
+								return // the name is used to find the content, it does not enter the digest
+							}
+							if strings.HasPrefix(callee.String(), "path/filepath.") {
+								fromPath = true
+							}
+						}
+						if x.Call.IsInvoke() {
+							walk(x.Call.Value, d+1)
+							// what was written into a hash before its sum was taken
+							if refs := x.Call.Value.Referrers(); refs != nil {
+								for _, ref := range *refs {
+									if c2, ok := ref.(*ssa.Call); ok && c2.Call.IsInvoke() && c2.Call.Value == x.Call.Value && c2 != x {
+										for _, a := range c2.Call.Args {
+											walk(a, d+1)
+										}
+									}
+								}
+							}
+						}
+						for _, a := range x.Call.Args {
+							walk(a, d+1)
+						}
+					case *ssa.UnOp:
+						if fa, ok := x.X.(*ssa.FieldAddr); ok && isString(x.Type()) {
+							_ = fa
+							fromPath = true // a text field of the parser (the path it was given)
+							return
+						}
+						walk(x.X, d+1)
+					case *ssa.Alloc:
+						if refs := x.Referrers(); refs != nil {
+							for _, ref := range *refs {
+								switch y := ref.(type) {
+								case *ssa.Store:
+									if y.Addr == ssa.Value(x) {
+										walk(y.Val, d+1)
+									}
+								case *ssa.IndexAddr:
+									for _, r2 := range *y.Referrers() {
+										if s2, ok := r2.(*ssa.Store); ok && s2.Addr == ssa.Value(y) {
+											walk(s2.Val, d+1)
+										}
+									}
+								}
+							}
+						}
+					default:
+						if ins, ok := v.(ssa.Instruction); ok {
+							for _, op := range ins.Operands(nil) {
+								if op != nil && *op != nil {
+									walk(*op, d+1)
+								}
+							}
+						}
+					}
+				}
+				walk(st.Val, 0)
+				if fromContent && !fromPath {
+					r.Bad(rule, "prefix:identity", pos, "the prefix of a file (its name space, and the key by which it counts as included already) is a digest of the file's content only: two different files with the same text are one module — they share their globals and their top-level code runs once")
+				} else {
+					r.Ok(rule, "prefix:identity", pos, "the prefix depends on more than the content of the file")
+				}
 			}
 		}
 	}
